@@ -192,7 +192,24 @@ pub fn triggers(src: &str, root: &SyntaxNode) -> Vec<&'static str> {
             // directly before `]` is glued to the bracket (`#[+ \ ]` -> `#[+ \]`)
             K::Linebreak if !in_math[i] => {
                 let next = leaves[li + 1..].iter().map(|&j| &flat[j]).find(|g| g.node.kind() != K::Space);
-                if next.is_some_and(|n| matches!(n.node.kind(), K::RightBracket | K::Star | K::Underscore)) {
+                // only inside a list / enum / term item (the blank behind a trailing item is dropped) -- a
+                // heading, plain text, strong or emphasis before the bracket keep their blank on the pinned
+                // tree (seeded change C04-6 lived in the wider trigger) -- or as the end of the term of a
+                // term item (`/ a \ : b` -> `/ a \: b`)
+                let mut in_item = false;
+                let mut cur = f.parent_idx;
+                while let Some(p) = cur {
+                    match flat[p].node.kind() {
+                        K::ListItem | K::EnumItem | K::TermItem => {
+                            in_item = true;
+                            break;
+                        }
+                        K::ContentBlock | K::Strong | K::Emph | K::Heading => break,
+                        _ => {}
+                    }
+                    cur = flat[p].parent_idx;
+                }
+                if in_item && next.is_some_and(|n| matches!(n.node.kind(), K::RightBracket | K::Colon)) {
                     add("R11");
                 }
             }
@@ -808,6 +825,15 @@ pub fn triggers(src: &str, root: &SyntaxNode) -> Vec<&'static str> {
                             res
                         };
                         add(if !behind_something || suppressed { "R31s" } else { "R31" });
+                        // both inner edges tight (`[- t<nl><nl>        o<nl><nl>c]`): the item stays behind the
+                        // bracket, and its continuation lines -- deeper than the marker in the source -- are
+                        // re-indented to one unit, which is *left* of the marker: they leave the item, for
+                        // every unit smaller than the text before the marker
+                        let tight_left = f.node.children().next().is_some_and(|c| c.kind() != K::Space);
+                        let tight_right = f.node.children().last().is_some_and(|c| !matches!(c.kind(), K::Space | K::Parbreak));
+                        if tight_left && tight_right && first.is_some_and(|c| syn::has_nl(&syn::text_of(c))) {
+                            add("R31s");
+                        }
                     }
                 }
                 // R30: list / enum / term items inside strong or emphasis: the edge blanks of the
@@ -832,7 +858,12 @@ pub fn triggers(src: &str, root: &SyntaxNode) -> Vec<&'static str> {
                     let first_sp = f.node.children().next().is_some_and(|c| c.kind() == K::Space && !syn::has_nl(c.text()));
                     let last_sp = f.node.children().last().is_some_and(|c| c.kind() == K::Space && !syn::has_nl(c.text()));
                     let single_line = !f.node.children().any(|c| c.kind() == K::Parbreak || (c.kind() == K::Space && syn::has_nl(c.text())));
-                    let embeds = f.node.children().any(|c| matches!(c.kind(), K::Hash | K::Equation | K::Ref));
+                    // (also inside a heading / item that is a child of the body: `[= #(long) ]`)
+                    let embeds = f.node.children().any(|c| {
+                        matches!(c.kind(), K::Hash | K::Equation | K::Ref)
+                            || (matches!(c.kind(), K::Heading | K::ListItem | K::EnumItem | K::TermItem)
+                                && syn::any_node(c, &mut |x| matches!(x.kind(), K::Hash | K::Equation | K::Ref)))
+                    });
                     // asymmetric edge blanks, or embedded code that cannot stay on one line
                     let forced = syn::has_nl(&syn::text_of(f.node))
                         || syn::any_node(f.node, &mut |x| {
